@@ -3,7 +3,7 @@
    run = command_replay/print_graph_rstack over func_stack[], srun = reference semantics). *)
 From Coq Require Import NArith List Bool Sorting.Sorted.
 Import ListNotations.
-Require Import UV.C06.Model UV.C06.MergeProofs UV.C06.Proofs.
+Require Import UV.C06.Model UV.C06.MergeProofs UV.C06.Proofs UV.C06.FmtProofs.
 Local Open Scope N_scope.
 
 (* ---- the k-way merge ---- *)
@@ -162,3 +162,12 @@ Print Assumptions C06_time_format_exact_below_1ms.
 Theorem C06_time_format_keeps_events : forall ls, events_of (map fmt_line ls) = map fmt_ev (events_of ls).
 Proof. exact events_fmt. Qed.
 Print Assumptions C06_time_format_keeps_events.
+
+(* "its printed duration equals exit minus entry": for every duration below 1000 hours the printed
+   text determines the duration up to the resolution of its unit (1 ns for us, 1 us for ms, 1 ms for s,
+   1 s for m - the fraction of "m" counts seconds - and 1 min for h): the value is truncated, never
+   rounded up, never in the wrong unit *)
+Theorem C06_time_format_truncates : forall d, 0 < d -> d < 3600000000000000 ->
+  fmt_lo (fmt_time d) <= d /\ d < fmt_lo (fmt_time d) + fmt_step (fmt_time d).
+Proof. exact fmt_time_truncates. Qed.
+Print Assumptions C06_time_format_truncates.
